@@ -57,7 +57,7 @@ def observed(fi):
 
 def judge(cid, res):
     """res = ('raised', type) | ('ok', idx, rows); returns violation class or None"""
-    if res[0] == "raised":
+    if res[0] in ("raised", "killed"):
         return None
     _, exp, rows = reference(cid)
     if res[1] != exp:
@@ -144,7 +144,7 @@ class C15(Check):
         "E2: states = (FASTA content in {A,B,C}, .fai/.agp bytes or absent, order relation of the three mtimes and the clock); transitions = tick, "
         "rewrite(X != current, mtime = now), rm .fai, rm .agp, load, load crashed before its k-th file operation for every k; BFS to fixpoint, for stream "
         "buffer sizes {16, 1} and one 8192-buffer run on a cache > 8 KiB. Invariant after every load: raised, or index and assembly == reference of the "
-        "current content; if the cache was missing or not strictly newer, both cache files were (re)written by this load. E3: 2 and 3 virtual processes "
+        "current content; if the cache was missing or not strictly newer, both cache files were (re)written by this load. E3: 2 and 3 virtual processes (in further runs one of them crashes at any of its file operations) "
         "each doing one auto_load from pre-states {no cache, stale cache, valid cache, .fai only}; every operation on .fai/.agp is a "
         "scheduling point; states = (files, per process: points passed + hash of observations); all reachable states explored; invariant: every process "
         "raised or returned the reference, and so does a fresh load afterwards. non-trivial = transition that changes the canonical state (E2) / "
@@ -182,6 +182,11 @@ class C15(Check):
                 out.append(("e3", 2, pre, 1))
         # three processes: production buffer in the quick tier (one write / read per cache file),
         # small buffer (every partial state of the cache files) in the thorough tier
+        # racing loaders of which one crashes at any of its file operations
+        for pre in ("none", "stale") if tier == "quick" else pres:
+            out.append(("e3k", 2, pre, 16))
+        if tier == "thorough":
+            out.append(("e3k", 3, "none", 8192))
         # The processes run the same program, so every schedule is a pid-renaming of one that
         # starts with process 0 (symmetry): only first choice 0 is explored.
         for pre in pres if tier == "thorough" else ("none", "valid"):
@@ -330,7 +335,8 @@ class C15(Check):
             self._cache_bytes[cid] = (files[FAI], files[AGP])
         return self._cache_bytes[cid]
 
-    def e3(self, nproc, pre, bufsize, ctx, first=None, replay_sched=None, shared=None):
+    def e3(self, nproc, pre, bufsize, ctx, first=None, replay_sched=None, shared=None, max_kills=0):
+        self._max_kills = max_kills
         snap0, now0 = self.prestate(pre)
         shared = set(shared) if shared else {FAI, AGP}
         while True:
@@ -348,6 +354,8 @@ class C15(Check):
 
         def finish(sched, st):
             case = ["e3", nproc, pre, bufsize, list(sched), sorted(ex.shared)]
+            if any(r[0] == "killed" for r in st["results"]):
+                ctx.count("schedules_with_a_crashed_process")
             ctx.cur = case
             ctx.evaluations += 1
             for p, res in enumerate(st["results"]):
@@ -389,9 +397,12 @@ class C15(Check):
             if not st["enabled"]:
                 finish(sched, st)
                 return None
-            for p in reversed(st["enabled"][1:]):
+            choices = list(st["enabled"])
+            if st["kills"] < self._max_kills:
+                choices += [-i - 1 for i in st["killable"]]
+            for p in reversed(choices[1:]):
                 stack.append(sched + (p,))
-            return st["enabled"][0]
+            return choices[0]
 
         while stack:
             sched = stack.pop()
@@ -408,6 +419,8 @@ class C15(Check):
             self.e2(8192, ctx, contents=("BIG", "A"))
         elif kind == "e3":
             self.e3(shard[1], shard[2], shard[3], ctx, first=shard[4] if len(shard) > 4 else None)
+        elif kind == "e3k":
+            self.e3(shard[1], shard[2], shard[3], ctx, first=0, max_kills=1)
 
     def replay(self, case, ctx):
         if case[0] == "e2":
@@ -443,6 +456,7 @@ class _Proc:
         self.obs = 0
         self.at = None
         self.thread = None
+        self.dead = False
 
 
 class _Exec:
@@ -470,7 +484,7 @@ class _Exec:
             p = cur()
             if p is None:
                 return
-            if state["abort"]:
+            if state["abort"] or p.dead:
                 raise Killed()
             if path == FA:
                 if op.startswith("open-") and op != "open-r":
@@ -487,7 +501,7 @@ class _Exec:
             p.points += 1
             ctrl.release()
             p.go.acquire()
-            if state["abort"]:
+            if state["abort"] or p.dead:
                 raise Killed()
 
         def observe(what):
@@ -500,7 +514,7 @@ class _Exec:
             v.local.pid = p.pid
             p.go.acquire()
             try:
-                if state["abort"]:
+                if state["abort"] or p.dead:
                     raise Killed()
                 fi = FastaIndex(Path(FA), 7)
                 fi.auto_load()
@@ -524,9 +538,12 @@ class _Exec:
                 p.thread.start()
 
             def step(i):
-                p = procs[i]
+                # i >= 0: let process i perform its pending operation; i < 0: process -i-1 crashes where it stands
+                p = procs[i] if i >= 0 else procs[-i - 1]
                 if p.done:
                     raise RuntimeError(f"schedule runs finished process {i}")
+                if i < 0:
+                    p.dead = True
                 p.go.release()
                 ctrl.acquire()
 
@@ -539,6 +556,8 @@ class _Exec:
                 return {
                     "key": key,
                     "enabled": enabled,
+                    "killable": [i for i, p in enumerate(procs) if not p.done and p.points > 0],
+                    "kills": sum(1 for p in procs if p.dead),
                     "mid": [(not p.done) and p.points > 0 for p in procs],
                     "results": [p.result for p in procs] if not enabled else None,
                     "snapshot": v.snapshot(),
@@ -549,7 +568,7 @@ class _Exec:
                 step(i)
             if to_completion:
                 while any(not p.done for p in procs):
-                    step(next(i for i, p in enumerate(procs) if not p.done))
+                    step(next(i for i, p in enumerate(procs) if not p.done))  # (replay of a complete schedule)
             out = state_now()
             if visit is not None:
                 cur_sched = tuple(sched)
